@@ -52,7 +52,8 @@ unsigned hw_concurrency();
 
 // replay: feed decisions instead of PRNG (call before begin); recording is always on
 void set_replay(const Decision* d, size_t n);
-size_t decisions(const Decision** d);
+size_t ndecisions();
+Decision decision_at(size_t i);
 
 // scheduling primitives used by the shims
 void point(Kind k, const void* obj, long v);
